@@ -175,6 +175,23 @@ def r1(ctx):
             okk = False
     rule.check(okk, "drop: every path past Some(self.sender.take()) sends the empty response", "drop|return-without-send",
                "Drop for TalkRequest can find the sender still present (the request was never answered) and return without sending the empty response", loc=dr.loc(dr.line))
+    # a TALKRESP is only ever produced by the request object (respond / drop): anything else that answers a TALK request on its own adds a
+    # second response to the one the object is going to send
+    makers = set()
+    for pth, bb in sorted(facts.bodies.items()):
+        for blk in bb.blocks:
+            if blk.idx not in bb.live_blocks():
+                continue
+            for st_ in blk.stmts:
+                if st_.k == "a" and st_.rv.k == "agg" and str(st_.rv.j.get("def")).endswith("rpc::ResponseBody") and st_.rv.j.get("variant") == "Talk":
+                    makers.add(strip_closure(pth))
+    allowed = {"crate::service::TalkRequest::respond", "<crate::service::TalkRequest as std::ops::Drop>::drop", "crate::rpc::Message::decode",
+               "<crate::rpc::ResponseBody as std::clone::Clone>::clone"}
+    extra = sorted(m for m in makers if m not in allowed and not m.startswith("crate::rpc::"))
+    rule.check(not extra and {"crate::service::TalkRequest::respond", "<crate::service::TalkRequest as std::ops::Drop>::drop"} <= makers,
+               "TALKRESP bodies are built only by TalkRequest::respond and TalkRequest::drop (and the codec)", "talkresp|who",
+               "a TALKRESP is also built in %s: a request answered there is answered again by its TalkRequest object (respond or drop)" % extra)
+
     return rule
 
 
